@@ -23,7 +23,7 @@ func init() {
 			"CRLF, final terminator; utf-8/iso-8859-1/windows-1252; replace_double_quotes / ignore_crlf wrappers; records straddling 4096/8192/65536 " +
 			"buffer edges) run under bytes.Reader and under 8 delivery schedules (one byte, small, large, interleaved empty reads, data+EOF, primes, " +
 			"boundaries forced inside runes/CRLF/delimiters/BOM). Transcripts (bytes, error type and text, checksums) must be identical; only the " +
-			"'rough' line number of json/xml error prefixes is masked. distinct = digest(input, schedule); non-trivial = >=1 record or error and >=2 chunks.",
+			"'rough' line number of json/xml error prefixes is masked. Also a line-per-Read schedule whose last line arrives together with io.EOF. distinct = digest(input, schedule); non-trivial = >=1 record or error and >=2 chunks.",
 		Assumptions: []string{
 			"the chunk reader obeys the io.Reader contract (never more than 3 consecutive empty reads)",
 			"json/xml error line numbers are documented as rough (decoder read-ahead) and masked; everything else is compared verbatim",
